@@ -11,6 +11,7 @@ IVK = "components/zcash_address/src/kind/unified/ivk.rs"
 CONS = "components/zcash_protocol/src/consensus.rs"
 TKEYS = "zcash_transparent/src/keys.rs"
 ENC = "components/zcash_encoding/src/lib.rs"
+LEG = "zcash_keys/src/encoding.rs"
 CONST = "components/zcash_protocol/src/constants/%s.rs"
 
 
@@ -27,9 +28,96 @@ def _int(s):
 
 
 def _bytes_def(name, s):
-    if not re.fullmatch(r"[a-z0-9]{1,16}", s):
+    if not re.fullmatch(r"[a-z0-9-]{1,40}", s):
         raise SrcgenError("human-readable part %s = %r is not a short lower-case string" % (name, s))
     return "Definition %s : list N := [%s]." % (name, "; ".join(str(ord(c)) for c in s))
+
+
+NETS = {"Main": 0, "Test": 1, "Regtest": 2}
+MODS = {"mainnet": "mainnet", "testnet": "testnet", "regtest": "regtest"}
+
+
+def _blist(bs):
+    return "[%s]" % "; ".join(str(b) for b in bs)
+
+
+def _hrp_bytes(s):
+    if not re.fullmatch(r"[a-z0-9-]{1,40}", s):
+        raise SrcgenError("human-readable part %r is not a short lower-case string" % s)
+    return [ord(c) for c in s]
+
+
+def _byte_array_const(rel, name):
+    m = re.findall(r"\bconst\s+%s\s*:\s*\[u8;\s*(\d+)\]\s*=\s*\[([^\]]*)\]\s*;" % re.escape(name), srcgen.read(rel))
+    if len(m) != 1:
+        raise SrcgenError("byte-array const %s not found exactly once in %s" % (name, rel))
+    n, body = m[0]
+    bs = [_int(x.strip()) for x in body.split(",") if x.strip()]
+    if len(bs) != int(n) or any(b < 0 or b > 255 for b in bs):
+        raise SrcgenError("byte-array const %s in %s is malformed" % (name, rel))
+    return bs
+
+
+def _nc_table(method, const, is_bytes):
+    """`impl NetworkConstants for NetworkType`: fn <method> { match self { NetworkType::X => mod::CONST, .. } }
+    -> [(net id, value)] as written in the source."""
+    src = srcgen.read(CONS)
+    i = src.find("impl NetworkConstants for NetworkType")
+    if i < 0:
+        raise SrcgenError("impl NetworkConstants for NetworkType not found")
+    m = re.search(r"fn\s+%s\s*\(&self\)[^{]*\{\s*match self \{(.*?)\}\s*\}" % re.escape(method), src[i:], re.S)
+    if not m:
+        raise SrcgenError("NetworkConstants::%s for NetworkType not found" % method)
+    arms = re.findall(r"NetworkType::(\w+)\s*=>\s*(\w+)::(\w+)\s*,", m.group(1))
+    if sorted(a[0] for a in arms) != sorted(NETS) or len(arms) != 3 or len(re.findall(r"=>", m.group(1))) != 3:
+        raise SrcgenError("NetworkConstants::%s: expected one arm per network" % method)
+    out = []
+    for net, mod, c in arms:
+        if mod not in MODS:
+            raise SrcgenError("NetworkConstants::%s: unknown constants module %s" % (method, mod))
+        v = _byte_array_const(CONST % mod, c) if is_bytes else _hrp_bytes(srcgen.str_const(CONST % mod, c))
+        out.append((NETS[net], v))
+    return out
+
+
+def _extfvk_arms():
+    """decode_extfvk_with_network: the HRP -> NetworkType arms as written."""
+    src = srcgen.read(LEG)
+    m = re.search(r"pub fn decode_extfvk_with_network\((.*?)\n\}\n", src, re.S)
+    if not m:
+        raise SrcgenError("decode_extfvk_with_network not found")
+    body = m.group(1)
+    mm = re.search(r"let network = match parsed\.hrp\(\)\.as_str\(\) \{(.*?)\n        other =>", body, re.S)
+    if not mm:
+        raise SrcgenError("decode_extfvk_with_network: HRP match not found")
+    arms = re.findall(r"(\w+)::(\w+)\s*=>\s*Ok\(NetworkType::(\w+)\)\s*,", mm.group(1))
+    if len(arms) != len(re.findall(r"=>", mm.group(1))) or not arms:
+        raise SrcgenError("decode_extfvk_with_network: arms outside the supported shape")
+    out = []
+    for mod, c, net in arms:
+        if mod not in MODS or net not in NETS:
+            raise SrcgenError("decode_extfvk_with_network: unknown module/network %s/%s" % (mod, net))
+        out.append((_hrp_bytes(srcgen.str_const(CONST % mod, c)), NETS[net]))
+    return out
+
+
+def gen_legacy():
+    lines = ["From Coq Require Import NArith List.", "Import ListNotations.", "Local Open Scope N_scope."]
+    for name, method, is_bytes in (("NC_EXTSK", "hrp_sapling_extended_spending_key", False),
+                                   ("NC_EXTFVK", "hrp_sapling_extended_full_viewing_key", False),
+                                   ("NC_PAYMENT", "hrp_sapling_payment_address", False),
+                                   ("NC_B58_PUBKEY", "b58_pubkey_address_prefix", True),
+                                   ("NC_B58_SCRIPT", "b58_script_address_prefix", True)):
+        t = _nc_table(method, None, is_bytes)
+        lines.append("Definition %s : list (N * list N) := [%s]." % (name, "; ".join("(%d, %s)" % (n, _blist(v)) for n, v in t)))
+    arms = _extfvk_arms()
+    lines.append("Definition EXTFVK_ARMS : list (list N * N) := [%s]." % "; ".join("(%s, %d)" % (_blist(h), n) for h, n in arms))
+    plen = _int(_one(LEG, r"pub fn decode_payment_address\(.*?if data\.len\(\) != (\d+) \{", "payment address length"))
+    lines.append("Definition PAYMENT_ADDRESS_LEN : N := %d." % plen)
+    # the shared decoder checks the HRP before reading, and the three decoders pass their own reader
+    _one(LEG, r"fn bech32_decode<T, F>.*?if parsed\.hrp\(\)\.as_str\(\) != hrp \{\s*Err\(Bech32DecodeError::HrpMismatch", "bech32_decode HRP check")
+    _one(LEG, r"if decoded\.starts_with\(pubkey_version\) \{.*?\} else if decoded\.starts_with\(script_version\) \{", "decode_transparent_address prefix order")
+    srcgen.write_gen("C11Legacy", "\n".join(lines) + "\n")
 
 
 class C11(Config):
@@ -38,7 +126,7 @@ class C11(Config):
     corr_targets = ["C11/Corr.vo", "C11/Wf.vo"]
     audit_dirs = ["Lib", "C11"]
     header = ("From V.Lib Require Import Base Hex.\n"
-              "From V.C11 Require Import Model Spec Corr Wf.\n"
+              "From V.C11 Require Import Model Spec Tab Eqb Legacy CorrLegacy Gap CorrGap Corr Wf.\n"
               "Local Open Scope N_scope.")
     bin = "c11"
     release_too = False
@@ -47,13 +135,16 @@ class C11(Config):
     shard_size = 150
     rule = ("seeds x ZIP 32 accounts x networks -> USK/UFVK/UIVK at every level and every component subset "
             "reachable through the public constructors; diversifier indices from a boundary lattice (0, Sapling-invalid, "
-            "2^31-1, 2^31, 2^32, 2^88-1) plus random; all 27 requirement triples plus AllAvailableKeys; a malformed stream "
+            "2^31-1, 2^31, 2^32, 2^88-1) plus random; all 27 requirement triples plus AllAvailableKeys; every public function of "
+            "zcash_keys::encoding on all three networks (own HRP, every other HRP, malformed strings); gap_limits address lists "
+            "over scopes 0..3/9, empty, inverted and top-of-space ranges with a mock address store; a malformed stream "
             "(mutated USK encodings and mutated un-jumbled UFVK/UIVK payloads, foreign prefixes, wrong network); every "
             "line is one executed public API call with its observed outcome; distinct = distinct lines")
     trusted_base = [
         "Coq 8.16.1 kernel, vm_compute (no native_compute)",
         "axioms: none (every theorem is closed under the global context)",
-        "vlib/props/c11.py extractors (era id, item lengths, HRPs, typecode bound, child-index bound)",
+        "vlib/props/c11.py extractors (era id, item lengths, HRPs, typecode bound, child-index bound; NetworkConstants "
+        "tables for NetworkType and the HRP -> network arms of decode_extfvk_with_network)",
         "harness/wallet/src/bin/c11.rs: printers, catch_unwind wrappers, and the per-case oracle tables "
         "(real derived values obtained through the external crates' own to_bytes/from_bytes/address_at, "
         "called independently of zcash_keys); a missing table entry yields a poison value (byte 256) that "
@@ -71,8 +162,12 @@ class C11(Config):
         "a key recognises the addresses derived from it and recovers the index (decrypt_diversifiers): harness-observed booleans only",
         "a note encrypted to a derived address decrypts under the external-scope IVK of the same account and under no other "
         "account's / the internal-scope key: harness-observed booleans only (cryptographic, external crates)",
-        "legacy Sapling (Bech32) and transparent (Base58Check) key/address encodings: round trip observed in the harness only",
+        "legacy Sapling / transparent encodings (zcash_keys::encoding): theorems at the level of the regenerated HRP / prefix "
+        "tables and of the model above Bech32 / Base58Check; the Bech32 and Base58Check layers themselves are oracles "
+        "(inverted by the harness with the bech32 / bs58 crates); AddressCodec for UnifiedAddress is harness-observed only",
         "Bech32m and F4Jumble layers are oracles (inverted by the harness with the primitive crates)",
+        "gap_limits.rs: modelled and proved at entry level (every listed address is the key's at its index); the wallet's "
+        "AddressStore is an input (mock store in the harness)",
         "find_address: 'first valid index at or after j' is proved; termination within the index space is proved only "
         "in the sense that the model needs at most 2^88 - j iterations (Sapling diversifier validity is probabilistic)",
     ]
@@ -115,6 +210,7 @@ class C11(Config):
             lines.append(_bytes_def("HRP_FVK_" + tag, srcgen.str_const(CONST % net, "HRP_UNIFIED_FVK")))
             lines.append(_bytes_def("HRP_IVK_" + tag, srcgen.str_const(CONST % net, "HRP_UNIFIED_IVK")))
         srcgen.write_gen("C11Consts", "\n".join(lines) + "\n")
+        gen_legacy()
 
 
 CONFIG = C11()
